@@ -220,8 +220,7 @@ def parseKeySig (s : String) : Option (Option Name) :=
     | _ => none
 
 def parseAct (s : String) : Option Act :=
-  if s == "T" then some .transfer
-  else if s == "K" then some .call
+  if s == "K" then some .call
   else match s.splitOn ":" with
     | ["A", n] => match parseName n with
       | some (.acct a) => if a < 4 then some (.setAcl (.acct a)) else none
@@ -232,16 +231,42 @@ def parseAct (s : String) : Option Act :=
     | ["M", c] => (parseContract c).map Act.setMethod
     | _ => none
 
+/-- fault target: the rule of a name, or the stored rule of a method (0 = c0.run, 1 = $acl.SetAccountAcl,
+2 = $acl.NewAccount, 3 = $acl.SetMethodAcl) -/
+inductive Target where
+  | name (n : Name)
+  | meth (k : Nat)
+deriving DecidableEq
+
 inductive FaultE where
   | none
-  | read (target : Option Name)     -- io / rd: the key is unreadable (`none` = the method rule key)
-  | evict (target : Option Name)
+  | read (target : Target)     -- io / rd: the key is unreadable
+  | evict (target : Target)
 
-def parseTarget (s : String) : Option (Option Name) :=
-  if s == "m" then some none
+def parseTarget (s : String) : Option Target :=
+  if s == "m" then some (.meth 0)
+  else if s == "ma" then some (.meth 1)
+  else if s == "mn" then some (.meth 2)
+  else if s == "mm" then some (.meth 3)
   else match parseName s with
-    | some n => if nameInRange n then some (some n) else none
+    | some n => if nameInRange n then some (.name n) else none
     | none => none
+
+def methKind : Act → Nat
+  | .call => 0
+  | .setAcl _ => 1
+  | .newAcc _ => 2
+  | .setMethod _ => 3
+
+/-- what a client can pre-execute: SetAccountAcl on a stored, parsable account; NewAccount on a name not yet taken
+(a NewAccount earlier in the same transaction counts) -/
+def preExecutable (stored broken : Name → Bool) : List Act → List Name → Bool
+  | [], _ => true
+  | .setAcl a :: rest, created =>
+    (stored a || created.contains a) && !broken a && preExecutable stored broken rest created
+  | .newAcc a :: rest, created =>
+    !(stored a || created.contains a) && preExecutable stored broken rest (a :: created)
+  | _ :: rest, created => preExecutable stored broken rest created
 
 def parseFault (s : String) : Option FaultE :=
   if s == "-" then some .none
@@ -276,7 +301,8 @@ def vtx (envS mruleS ownersS pendS faultS iniS isigS usS usigS inputsS actS : St
     else parseKeySig s)
   let inputs ← (words inputsS).mapM parseName
   if !inputs.all nameInRange || inputs.length > 4 then none
-  let act ← parseAct actS
+  let acts ← if actS == "T" then some [] else (actS.splitOn "+").mapM parseAct
+  if acts.length > 3 then none
   let env : Env := fun n => match es.find? (fun e => decide (e.1 = n)) with
     | some (_, .rule r) => some r
     | _ => none
@@ -284,18 +310,14 @@ def vtx (envS mruleS ownersS pendS faultS iniS isigS usS usigS inputsS actS : St
     | some (_, .broken) => true
     | _ => false
   let stored : Name → Bool := fun n => (es.any (fun e => decide (e.1 = n))) || pend.contains (.acct n)
-  -- what a client can pre-execute
-  match act with
-  | .setAcl a => if !stored a || broken a then none
-  | .newAcc a => if stored a then none
-  | _ => pure ()
+  if !preExecutable stored broken acts [] then none
   let faultName : Option Name := match fault with
-    | .read (some n) => some n
-    | .evict (some n) => if pend.contains (.acct n) then some n else none
+    | .read (.name n) => some n
+    | .evict (.name n) => if pend.contains (.acct n) then some n else none
     | _ => none
-  let badM : Bool := match fault with
-    | .read none => true
-    | .evict none => act == .call && pend.contains .meth
+  let badM : Act → Bool := fun a => match fault with
+    | .read (.meth k) => k == methKind a
+    | .evict (.meth k) => k == 0 && methKind a == 0 && pend.contains .meth
     | _ => false
   let ch : TxChain := {
     env := env,
@@ -304,7 +326,7 @@ def vtx (envS mruleS ownersS pendS faultS iniS isigS usS usigS inputsS actS : St
     mrule := mrule,
     bad := fun n => broken n || faultName == some n,
     badM := badM }
-  let tx : Tx := { init := ini, isig := isig, auth := us, usig := usig, inputs := inputs, act := act }
+  let tx : Tx := { init := ini, isig := isig, auth := us, usig := usig, inputs := inputs, acts := acts }
   pure (ar (verifyTx ch tx))
 
 def step (_ : Unit) (line : String) : Unit × String :=
